@@ -1,6 +1,7 @@
 """C12  Signals reach exactly the connected slots, safely under re-entrancy."""
 import hashlib
 import common as C
+import gen_callback
 
 PROPERTIES = ["C12"]
 MANIFEST = {
@@ -52,9 +53,34 @@ MANIFEST = {
         "design_ref": "DESIGN.md 3/C12",
     }
 }
-PROPS = ["Nstd.Callback.Props"]
+PROPS = ["Nstd.Callback.Props", "Nstd.Callback.PropsTie"]
 DRIVER = "drv_callback"
 LEAN_TARGETS = PROPS + [DRIVER]
+GEN_BODY = C.LEAN / "Nstd/Generated/CallbackBody.lean"
+
+
+def translate(repo=None):
+    """the bodies of src/Callback.cpp and the connect/disconnect/emit templates of Callback.hpp, translated from the CURRENT
+    sources -> lean/Nstd/Generated/CallbackBody.lean (tools/gen_callback.py); a shape outside the understood subset is refused"""
+    try:
+        return True, "Callback.cpp / Callback.hpp translated: " + gen_callback.generate(repo or C.REPO, GEN_BODY)
+    except gen_callback.Refuse as e:
+        return False, "tools/gen_callback.py refuses the current Callback code (broken tie): " + str(e)
+    except OSError as e:
+        return False, "tools/gen_callback.py: " + str(e)
+
+
+def gen(ctx):
+    ok, msg = translate()
+    ctx.cov["translated"] = msg
+    ctx.log(msg)
+    return ok, msg
+
+
+def setup():
+    ok, msg = translate()
+    if not ok:
+        print("callback translate:", msg)
 SOURCES = ["callback.cpp", C.REPO / "src/Callback.cpp", C.REPO / "src/Memory.cpp"]
 NE, NG, NL, NS, MAXK, MAXACT, NV = 3, 10, 3, 2, 8, 8, 10
 REF_SIGNAL = 9   # its parameter type is `int&`
@@ -853,7 +879,7 @@ def check(ctx):
         "a new object is a new id in the model even when it gets the address of a destroyed object (exercised: after a `reuse` line the harness constructs objects in place, a re-created object has exactly the address of its predecessor)", "the destructors' result is independent of the order of the Map keys; member-function pointers of distinct signals/slots are distinct, of equal size, and == agrees with memcmp (non-virtual members, no identical-code folding)",
         "slot bodies are deterministic scripts of connect/disconnect/emit/delete actions; allocation never fails",
     ]
-    proof_ok = C.proof_stage(ctx, PROPS, [DRIVER], leanchecker=(ctx.tier == "thorough"))
+    proof_ok = C.proof_stage(ctx, PROPS, [DRIVER], gen=gen, leanchecker=(ctx.tier == "thorough"))
     proof_ok = node_is_ghost(ctx) and proof_ok
     proof_ok = copy_rejected(ctx) and proof_ok
     harness = C.build_harness(ctx, "callback", SOURCES)
